@@ -172,6 +172,13 @@ impl Recv {
         // out of `ReservedRemote`. As a result, `recv_open` reports each of them
         // as initial. Only account for the stream once.
         if is_initial && !stream.is_counted {
+            // A promised stream is not counted while it is only reserved: the
+            // limit may have been reached by the time its response arrives.
+            if !counts.can_inc_num_recv_streams() {
+                proto_err!(stream: "recv_headers: stream limit reached; stream={:?}", stream.id);
+                return Err(Error::library_reset(stream.id, Reason::REFUSED_STREAM).into());
+            }
+
             // TODO: be smarter about this logic
             if frame.stream_id() > self.last_processed_id {
                 self.last_processed_id = frame.stream_id();
